@@ -291,7 +291,7 @@ class tm:
         Returns:
             position
         """
-        return self.TAA[0:3]
+        return self.TAA[0:3].copy()
 
     def sTM(self, TM):
         """
